@@ -6,7 +6,7 @@ thread executes only while it holds the baton; it hands the baton back at every 
   * a `sys.settrace` 'line' event inside one of the anchored code objects (`codes`) - the thread
     stops BEFORE executing that line; the label of the stop is `(function name, line offset from
     the `def` line)`; with `opcodes=True` the thread stops before every BYTECODE instead
-    (`frame.f_trace_opcodes`), which is used for oracle-only runs;
+    (a `sys.monitoring` INSTRUCTION callback), which is used for oracle-only runs;
   * the 'call' event of an *entry* code object (`BackgroundTask.run`) in a thread the real code
     created itself: the thread registers as worker `w<n>` and is held before its first instruction;
   * an instrumented blocking primitive (`Thread.join` on a managed thread): the caller is marked
@@ -21,6 +21,7 @@ import threading
 import _thread
 
 TIMEOUT = 20.0
+MON_TOOL = 4          # sys.monitoring tool id used in bytecode mode
 
 
 class SchedError(Exception):
@@ -130,11 +131,30 @@ class Sched:
         threading.Thread.start = start
         threading.Thread.join = join
         threading.settrace(self._global_trace)
+        if self.opcodes:
+            # bytecode granularity through sys.monitoring (PEP 669): an INSTRUCTION callback per anchored
+            # code object.  (`frame.f_trace_opcodes` misses the first frame of a code object on 3.12.)
+            mon = sys.monitoring
+            mon.use_tool_id(MON_TOOL, 'c20_sched')
+            mon.register_callback(MON_TOOL, mon.events.INSTRUCTION, self._on_instruction)
+            self._linemap = {}
+            for code in self.codes:
+                self._linemap[code] = {}
+                for start_off, end_off, ln in code.co_lines():
+                    for off in range(start_off, end_off, 2):
+                        self._linemap[code][off] = -1 if ln is None else ln - code.co_firstlineno
+                mon.set_local_events(MON_TOOL, code, mon.events.INSTRUCTION)
 
     def uninstall(self):
         if not self._installed:
             return
         threading.settrace(None)
+        if self.opcodes:
+            mon = sys.monitoring
+            for code in self.codes:
+                mon.set_local_events(MON_TOOL, code, 0)
+            mon.register_callback(MON_TOOL, mon.events.INSTRUCTION, None)
+            mon.free_tool_id(MON_TOOL)
         threading.Thread.start = self._real_start
         threading.Thread.join = self._real_join
         self._installed = False
@@ -160,6 +180,13 @@ class Sched:
         rec.go.acquire()
         if rec.kill and not self.opcodes:
             raise _Kill()
+
+    def _on_instruction(self, code, offset):
+        rec = self._me()
+        if rec is None or rec.kill:
+            return None
+        self._yield(rec, (code.co_qualname, self._linemap.get(code, {}).get(offset, -1)))
+        return None
 
     def _global_trace(self, frame, event, arg):
         if event != 'call':
@@ -188,8 +215,6 @@ class Sched:
                 if self.opcodes:
                     return None
                 raise _Kill()
-        if self.opcodes:
-            frame.f_trace_opcodes = True
         return self._local_trace
 
     def _local_trace(self, frame, event, arg):
@@ -197,7 +222,7 @@ class Sched:
         if rec is None:
             return None
         code = frame.f_code
-        if event == ('opcode' if self.opcodes else 'line'):
+        if event == 'line' and not self.opcodes:
             ln = frame.f_lineno          # None for bytecodes without a line (exception clean-up)
             self._yield(rec, (code.co_qualname, -1 if ln is None else ln - code.co_firstlineno))
         elif event == 'return' and rec.kind == 'worker' and code in self.entry and not rec.done:
